@@ -29,6 +29,36 @@ def record(rep, rule, fn, verdict, msgs, paths, key_suffix='', extra=''):
         rep.violation(rule, key, msgs[0][:600], fn.where())
 
 
+def in_caller_context(F, f, kind):
+    """analyse helper f spliced into its unique caller (None if it has several callers or none)"""
+    import copy
+    import inline
+    from facts import Fn
+    callers = [g for g in F.real_fns() if g.name != f.name and any((t['callee'].get('resolved') or '') == f.name for b, t in g.calls())]
+    if len(callers) != 1:
+        return None
+    g = callers[0]
+    d = copy.deepcopy(g.d)
+    bodies = {f.name: f.d, g.name: d}
+    counter = [0]
+    for _ in range(8):
+        hit = None
+        for bl in d['blocks']:
+            t = bl['term']
+            if t.get('t') == 'call' and (t['callee'].get('resolved') or '') == f.name:
+                hit = (bl, t)
+                break
+        if hit is None:
+            break
+        inline.inline_call(d, hit[0], hit[1], f.d, bodies, counter)
+    merged = Fn(d)
+    gk = scale.OPS.get(g.trait) if g.trait in scale.OPS else ('add' if re.search(r'^arithmetic::addition::add', g.name) else kind)
+    try:
+        return scale.analyse(merged, gk, lift=re.search(r'^arithmetic::addition::', g.name) is not None)
+    except Exception:
+        return None
+
+
 def operator_family(rep, F, traits, rule='R-SCALE'):
     """every impl function of the given operator traits + the addition helpers"""
     prepare(F)
@@ -43,6 +73,13 @@ def operator_family(rep, F, traits, rule='R-SCALE'):
         is_helper = re.search(r'^arithmetic::addition::', f.name) is not None
         v, msgs, paths = scale.analyse(f, kind, lift=is_helper)
         a = scale.analyse.last
+        if v == 'violation' and is_helper:
+            # a helper whose contract with its only caller is not expressible over parameter scales alone (e.g. it is handed a
+            # scale difference the caller computed): type it in the context of that caller, spliced in at MIR level
+            alt = in_caller_context(F, f, kind)
+            if alt is not None and alt[0] == 'ok':
+                v, msgs, paths = alt
+                a = scale.analyse.last
         n += 1
         arms[f.arm] += 1
         rep.add_functions([f.name])
